@@ -209,7 +209,13 @@ pub fn build(ctx: BuildContext<SimBp>) -> libcnb::Result<BuildResult, SimErr> {
             pb.args(p.args.clone());
             pb.default(p.default);
             if let Some(w) = &p.workdir {
-                pb.working_directory(WorkingDirectory::Directory(PathBuf::from(w)));
+                let dir = if w == super::script::WORKDIR_NOT_UTF8 {
+                    use std::os::unix::ffi::OsStrExt;
+                    PathBuf::from(std::ffi::OsStr::from_bytes(b"srv/d\xE4ta"))
+                } else {
+                    PathBuf::from(w)
+                };
+                pb.working_directory(WorkingDirectory::Directory(dir));
             }
             lb.process(pb.build());
         }
